@@ -622,6 +622,10 @@ def cases(thorough):
             b = bytes(t)
             yield ("bytes", "b64", b, ("value", base64.b64encode(b).decode()))
             yield ("bytes", "b64urlsafe", b, ("value", base64.urlsafe_b64encode(b).decode()))
+    for b in (b"\xef\xbb\xbfabc", b"\xef\xbb\xbf", b"\xef\xbb", b"\xef\xbb\xbf\xef\xbb\xbf", b"\xff\xfeab", b"\xfe\xff", b"a\xef\xbb\xbf"):
+        yield ("bytes-with-byte-order-mark", "b64", b, ("value", base64.b64encode(b).decode()))
+        yield ("bytes-with-byte-order-mark", "b64urlsafe", b, ("value", base64.urlsafe_b64encode(b).decode()))
+    yield ("text", "str", "\ufeffabc".encode("utf-8"), ("value", "\ufeffabc"))
     for s in ["hello", "é😀", "a" * 1000, "\n"]:
         b = s.encode("utf-8")
         yield ("text-bytes", "b64", b, ("value", base64.b64encode(b).decode()))
